@@ -161,6 +161,79 @@ pub fn c09_case(bytes: &[u8], stats: &mut Stats, counting: bool, cfg: &GenConfig
     }
 }
 
+/// C09, loose mode: operators and tag operands are chosen without regard to types, so most queries are rejected by the
+/// frontend; whatever it accepts is executed with arguments generated from the variable types the *engine* recorded.
+/// This is where a weakened operand type check (ill-typed operands reaching `filtering.rs`) becomes visible.
+pub fn c09_loose_case(bytes: &[u8], stats: &mut Stats, counting: bool, cfg: &GenConfig) -> Verdict {
+    let mut c = Choices::new(bytes);
+    // the harness's annotator is written for well-typed queries: if it cannot digest a loose one the case is dropped
+    let decoded = engine::catch(|| {
+        let case = decode_world_case(&mut c, cfg);
+        let drop_after = c.below(6);
+        let arg_seed: Vec<u8> = (0..48).map(|_| c.byte()).collect();
+        (case, drop_after, arg_seed)
+    });
+    let Ok((case, drop_after, arg_seed)) = decoded else {
+        return Verdict::Discard("loose-query-not-digestible-by-the-harness-annotator".into());
+    };
+    let schema = match engine::parse_schema(&case.sdl) {
+        Ok(Ok(s)) => s,
+        _ => return Verdict::HarnessBug(format!("generated schema rejected\n{}", case.sdl)),
+    };
+    let iq = match engine::compile(&schema, &case.query_text) {
+        engine::CompileOutcome::Ok(iq) => iq,
+        engine::CompileOutcome::Err(e) => {
+            if counting {
+                stats.label("loose:frontend-rejected");
+            }
+            let kind = e.split(['(', ' ', '{']).next().unwrap_or("?").to_string();
+            return Verdict::Discard(format!("frontend-rejected:{kind}"));
+        }
+        engine::CompileOutcome::Panic(_) => return Verdict::Discard("frontend-panic(C10)".into()),
+    };
+    // arguments from the engine's own recorded variable types
+    let mut ac = Choices::new(&arg_seed);
+    let mut args: std::collections::BTreeMap<String, crate::values::Value> = Default::default();
+    for (name, ty) in iq.ir_query.variables.iter() {
+        let Some(t) = crate::values::Ty::parse(&ty.to_string()) else {
+            return Verdict::HarnessBug(format!("cannot parse engine type {ty}"));
+        };
+        let is_regex = case.ann.var_uses.iter().any(|(n, _, op, _)| n == name.as_ref() && matches!(op, crate::values::Op::Regex | crate::values::Op::NotRegex));
+        let v = if is_regex && t.base == "String" && !t.is_list() {
+            crate::values::Value::str(["a", "^a", "b$", "a.c", "."][ac.below(5)])
+        } else {
+            crate::data::gen_value_of_type(&mut ac, &t, 0)
+        };
+        args.insert(name.to_string(), v);
+    }
+    let ill_typed = !case.ann.errors.is_empty();
+    let adapter = Arc::new(GraphAdapter::new(case.world.clone()));
+    let limit = if drop_after == 0 { ROW_LIMIT * 2 } else { drop_after };
+    let out = engine::execute(adapter, iq.clone(), engine::args_to_engine(&args), limit);
+    if counting {
+        stats.label("loose:frontend-accepted");
+        if ill_typed {
+            stats.label("loose:accepted-although-the-harness-annotator-objects");
+        }
+        if stats.nontrivial(case.query_text.as_bytes()) {
+            stats.sample(|| json!({"query": case.query_text, "args": format!("{args:?}"), "annotator_objections": case.ann.errors}));
+        }
+    }
+    match out {
+        ExecOutcome::Rows(_) => Verdict::Pass,
+        ExecOutcome::ArgError(e) => Verdict::Discard(format!("args-rejected(C12):{}", first_line(&e).chars().take(40).collect::<String>())),
+        ExecOutcome::Panic(p, _) => {
+            if p.in_harness() {
+                return Verdict::Discard("adapter-misuse(C21)".into());
+            }
+            Verdict::Fail {
+                sig: format!("exec-panic|{}|{}|ctx:{}", p.file(), first_line(&p.message), stress_context(&case).join(",")),
+                msg: format!("execution panicked: {}\nquery:\n{}\nargs: {:?}", p.render(), case.query_text, args),
+            }
+        }
+    }
+}
+
 /// which listed-finding preconditions does this case satisfy (part of the failure signature)
 pub fn stress_context(case: &WorldCase) -> Vec<&'static str> {
     let mut v = vec![];
@@ -192,8 +265,14 @@ pub fn c09(ctx: &CheckCtx) -> i32 {
     let mut stress_cfg = default_gen_config();
     stress_cfg.args.allow_invalid_regex = true;
     stress_cfg.query.allow_list_ordering = true;
+    let mut loose_cfg = default_gen_config();
+    loose_cfg.query.loose_types = true;
+    loose_cfg.query.allow_list_ordering = true;
     if ctx.replay.is_some() {
         return replay_with(ctx, &|sub, bytes| {
+            if sub == "c09-loose" {
+                return c09_loose_case(bytes, &mut Stats::default(), false, &loose_cfg);
+            }
             let cfg = if sub == "c09-listed" { &stress_cfg } else { &cfg };
             c09_case(bytes, &mut Stats::default(), false, cfg)
         });
@@ -203,7 +282,10 @@ pub fn c09(ctx: &CheckCtx) -> i32 {
         "choice stream -> world with stress arguments (invalid regexes, extreme ints, list operands of ordering \
          filters, repeated tag uses, count filters below optionals), executed to exhaustion or dropped after 1-5 rows \
          on a contract-abiding adapter; oracle: no panic. Non-trivial: accepted query that executed and has a tag \
-         filter, count filter, tag imported into a fold, or fold/recursion together with @optional; distinct by case hash.",
+         filter, count filter, tag imported into a fold, or fold/recursion together with @optional; distinct by case hash. \
+         A third search (c09-loose) picks operators and tag operands without regard to types, lets the frontend decide, and \
+         executes whatever it accepts with arguments drawn from the variable types the engine itself recorded (non-trivial \
+         there: distinct accepted query texts).",
     );
     report.assume("the main search excludes by construction the two listed findings (ordering filters on list-typed properties, invalid regex arguments); a second, smaller search includes them and tolerates exactly their signatures");
     let cases = ctx.cases(40_000, 2_000_000);
@@ -219,6 +301,12 @@ pub fn c09(ctx: &CheckCtx) -> i32 {
         v
     });
     report.absorb(res, &|b| render_world_case(b, &stress_cfg));
+    // loose mode: the quantifier is "every query the frontend accepts", not "every query the harness considers well-typed"
+    let cases = ctx.cases(120_000, 3_000_000);
+    let res = search(ctx, "c09-loose", cases, WORLD_MIN_LEN, WORLD_MAX_LEN, |b, s, counting| c09_loose_case(b, s, counting, &loose_cfg));
+    report.absorb(res, &|b| {
+        engine::catch(|| render_world_case(b, &loose_cfg)).unwrap_or_else(|_| json!({"note": "loose query not renderable by the annotator"}))
+    });
     report.finish()
 }
 
